@@ -188,6 +188,8 @@ def menu(M, seen):
             add({"op": "ctor_bcast", "name": mname, "form": "len1"})
             add({"op": "ctor_bcast", "name": mname, "form": "len1col"})
             add({"op": "ctor_bcast", "name": mname, "form": "scalar_strsub"})
+            add({"op": "ctor_bcast", "name": mname, "form": "scalar0d"})
+            add({"op": "modify", "name": mname, "form": "scalar0d"})
             add({"op": "modify", "name": mname, "form": "scalar_strsub"})
         add({"op": "select", "cols": list(reversed(names))})
         add({"op": "select", "cols": [names[0]]})
@@ -211,6 +213,7 @@ def menu(M, seen):
         if n >= 1 or k == 0:
             add({"op": "setitem", "name": nm, "form": "scalar"})
             add({"op": "setitem", "name": nm, "form": "scalar0"})
+            add({"op": "setitem", "name": nm, "form": "scalar0d"})
             add({"op": "setitem", "name": nm, "form": "len1"})
             add({"op": "setitem", "name": nm, "form": "len1col"})
         if k >= 1:
@@ -331,6 +334,8 @@ def value_of(form, n, M):
         return 5, [5]
     if form == "scalar0":
         return 0, [0]   # a falsy scalar is a value like any other
+    if form == "scalar0d":
+        return np.asarray(5), [5]   # a zero-dimensional array is a scalar
     if form == "scalar_strsub":
         return StrSub("red"), ["red"]   # an instance of a str subclass (what enum.StrEnum members are) is a scalar
     if form == "len1col":
@@ -777,6 +782,14 @@ def step(d, M, seen, op, rec, clauses, case_of):
             return None, None, None, True
         rec.outcome((o, "rejected"))
         return None, None, None, False
+    if raised is not None and op.get("form") == "scalar0d":
+        # a zero-dimensional array may be refused (the unchanged tree does) or broadcast like a scalar - but never
+        # stored as it is (the invariants below see to that when the call succeeds)
+        if snapshot(d) != before and ("C01" in clauses or "C06" in clauses):
+            rec.violation(o, "changed-on-reject", case_of(op), "the frame changed although the operation was rejected")
+            return None, None, None, True
+        rec.outcome((o, "rejected"))
+        return None, None, None, False
     if raised is not None:
         if "C01" in clauses:
             rec.violation(o, "raised", case_of(op), f"{type(raised).__name__}: {raised}")
@@ -797,8 +810,9 @@ def step(d, M, seen, op, rec, clauses, case_of):
             if msg:
                 rec.violation(o, "shares-memory", case_of(op), msg)
     seen2 = set(seen) | set(dict.keys(out)) if isinstance(out, dict) else set(seen)
-    if not inplace:
+    if not inplace and out is not d:
         # names removed by a functional op were never removed from *this* object: a new object starts its own history
+        # (a method that hands back the receiver itself does not start a new history)
         seen2 = set(dict.keys(out)) if isinstance(out, dict) else set()
     msg = invariants(out, m2, seen2)
     if msg:
